@@ -315,11 +315,12 @@ theorem marshal_shape (t : Instant) :
 /-! ## the byte-level parser on what `MarshalJSON` prints
 
 Full statement (byte level, every instant with a four-digit year):
-`∀ t, 0 ≤ t.nano < 10^9 → 0 ≤ (utcFields t).Y ≤ 9999 → unmarshal16 (marshalRFC3339 t) = .ok {t with nano := 0}`.
-Proved here: the JSON-token layer (`string_token`), the field layer (`utcFields_instant`, `utcFields_valid`,
-`offset_shift`) for **all** instants; the digit-level step `parseIso (renderDateTime f ++ [90])` is checked by
-kernel evaluation on the instances below and by the differential harness on generated instants — it is the
-part of `roundtrip` that is *tested, not proved* (`roundtrip_partial`). -/
+`∀ t, 0 ≤ (utcFields t).Y ≤ 9999 → unmarshal16 (marshalRFC3339 t) = .ok {t with nano := 0}` — theorem `roundtrip` below,
+proved from the JSON-token layer (`string_token`), the field layer (`utcFields_instant`, `utcFields_valid`,
+`offset_shift`, all instants) and the digit-level step `roundtrip_iso` (the parser loop unrolled over the twenty
+rendered bytes, with the 64-bit wrap-around of the library's accumulator discharged by the four-digit bound).
+`roundtrip_partial` is the composition lemma (kept under its historical name). Other configured layouts than RFC 3339 and
+years outside 0..9999 are covered by the differential harness only. -/
 
 theorem roundtrip_partial (t : Instant) (h : parseIso (formatRFC3339 t) = .ok { t with nano := 0 }) :
     unmarshal16 (marshalRFC3339 t) = .ok { t with nano := 0 } ∧ unmarshal201 (marshalRFC3339 t) = .ok { t with nano := 0 } := by
@@ -327,6 +328,145 @@ theorem roundtrip_partial (t : Instant) (h : parseIso (formatRFC3339 t) = .ok { 
   simp only [marshalRFC3339]
   have e : [34] ++ formatRFC3339 t ++ [34] = 34 :: formatRFC3339 t ++ [34] := by simp
   rw [e, this.1, this.2, h]; simp
+
+/-! ## the digit-level step, proved: the parser over `YYYY-MM-DDThh:mm:ssZ` -/
+
+theorem isDigit_digit (n : Int) : isDigit (digit n) = true := by
+  have h1 : 48 ≤ 48 + n % 10 := by omega
+  have h2 : 48 + n % 10 ≤ 57 := by omega
+  simp [isDigit, digit, h1, h2]
+
+theorem digit_val (n : Int) : digit n - 48 = n % 10 := by simp only [digit]; omega
+
+theorem wrap_small (x : Int) (h : 0 ≤ x ∧ x < 100000) : wrap x = x := by
+  simp only [wrap, u64]; omega
+
+/-- one digit byte (outside the fraction) -/
+theorem parseLoop_digit (n : Int) (rest : List Int) (first : Bool) (st : PState) (hp : st.p ≠ 6) :
+    parseLoop (digit n :: rest) first st = parseLoop rest false { st with c := wrap (wrap (st.c * 10) + n % 10) } := by
+  rw [parseLoop]
+  simp only [isDigit_digit, if_true, digit_val]
+  have : (st.p == 6) = false := by simpa using hp
+  simp [this]
+
+theorem parseLoop_pad2 (n : Int) (hn : 0 ≤ n ∧ n ≤ 99) (rest : List Int) (first : Bool) (st : PState) (hp : st.p ≠ 6)
+    (hc : st.c = 0) : parseLoop (pad2 n ++ rest) first st = parseLoop rest false { st with c := n } := by
+  simp only [pad2, List.cons_append, List.nil_append]
+  rw [parseLoop_digit _ _ _ _ hp, parseLoop_digit _ _ _ _ (by simpa using hp)]
+  congr 1
+  simp only [hc]
+  have e1 : wrap ((0 : Int) * 10) = 0 := by rw [wrap_small] <;> omega
+  have e2 : wrap (0 + n / 10 % 10) = n / 10 := by rw [wrap_small] <;> omega
+  have e3 : wrap (n / 10 * 10) = n / 10 * 10 := by rw [wrap_small]; omega
+  have e4 : wrap (n / 10 * 10 + n % 10) = n := by rw [wrap_small] <;> omega
+  simp only [e1, e2, e3, e4]
+
+theorem parseLoop_pad4 (n : Int) (hn : 0 ≤ n ∧ n ≤ 9999) (rest : List Int) (first : Bool) (st : PState) (hp : st.p ≠ 6)
+    (hc : st.c = 0) : parseLoop (pad4 n ++ rest) first st = parseLoop rest false { st with c := n } := by
+  simp only [pad4, List.cons_append, List.nil_append]
+  rw [parseLoop_digit _ _ _ _ hp, parseLoop_digit _ _ _ _ (by simpa using hp), parseLoop_digit _ _ _ _ (by simpa using hp),
+    parseLoop_digit _ _ _ _ (by simpa using hp)]
+  congr 1
+  simp only [hc]
+  have e1 : wrap ((0 : Int) * 10) = 0 := by rw [wrap_small] <;> omega
+  have e2 : wrap (0 + n / 1000 % 10) = n / 1000 := by rw [wrap_small] <;> omega
+  have e3 : wrap (n / 1000 * 10) = n / 1000 * 10 := by rw [wrap_small]; omega
+  have e4 : wrap (n / 1000 * 10 + n / 100 % 10) = n / 100 := by rw [wrap_small] <;> omega
+  have e5 : wrap (n / 100 * 10) = n / 100 * 10 := by rw [wrap_small]; omega
+  have e6 : wrap (n / 100 * 10 + n / 10 % 10) = n / 10 := by rw [wrap_small] <;> omega
+  have e7 : wrap (n / 10 * 10) = n / 10 * 10 := by rw [wrap_small]; omega
+  have e8 : wrap (n / 10 * 10 + n % 10) = n := by rw [wrap_small] <;> omega
+  simp only [e1, e2, e3, e4, e5, e6, e7, e8]
+
+structure ValidF (f : Fields) : Prop where
+  y : 0 ≤ f.Y ∧ f.Y ≤ 9999
+  m : 1 ≤ f.M ∧ f.M ≤ 12
+  d : 1 ≤ f.D ∧ f.D ≤ daysIn f.M f.Y
+  h : 0 ≤ f.h ∧ f.h ≤ 23
+  mi : 0 ≤ f.mi ∧ f.mi ≤ 59
+  s : 0 ≤ f.s ∧ f.s ≤ 59
+
+theorem daysIn_le (m y : Int) : daysIn m y ≤ 31 := by
+  unfold daysIn; split <;> (try split) <;> (try split) <;> omega
+
+theorem sep_dash0 (rest : List Int) (first : Bool) (st : PState) (hp : st.p = 0) :
+    parseLoop (45 :: rest) first st = parseLoop rest false { st with Y := st.c, p := 1, c := 0 } := by
+  rw [parseLoop]; simp [isDigit, hp]
+theorem sep_dash1 (rest : List Int) (first : Bool) (st : PState) (hp : st.p = 1) :
+    parseLoop (45 :: rest) first st = parseLoop rest false { st with M := st.c, p := 2, c := 0 } := by
+  rw [parseLoop]; simp [isDigit, hp]
+theorem sep_T (rest : List Int) (first : Bool) (st : PState) (hp : st.p = 2) :
+    parseLoop (84 :: rest) first st = parseLoop rest false { st with d := st.c, c := 0, p := 3 } := by
+  rw [parseLoop]; simp [isDigit, hp]
+theorem sep_colon3 (rest : List Int) (first : Bool) (st : PState) (hp : st.p = 3) :
+    parseLoop (58 :: rest) first st = parseLoop rest false { st with h := st.c, c := 0, p := 4 } := by
+  rw [parseLoop]; simp [isDigit, hp]
+theorem sep_colon4 (rest : List Int) (first : Bool) (st : PState) (hp : st.p = 4) :
+    parseLoop (58 :: rest) first st = parseLoop rest false { st with m := st.c, c := 0, p := 5 } := by
+  rw [parseLoop]; simp [isDigit, hp]
+theorem sep_Z5 (st : PState) (hp : st.p = 5) :
+    parseLoop [90] false st = .ok { st with s := st.c, c := 0, off := 0 } := by
+  rw [parseLoop]; simp [isDigit, hp, zoneBranch, parseZone]
+
+/-- the parser loop over `YYYY-MM-DDThh:mm:ssZ` -/
+theorem parseLoop_render (f : Fields) (v : ValidF f) :
+    parseLoop (renderDateTime f ++ [90]) true {} =
+      .ok { Y := f.Y, M := f.M, d := f.D, h := f.h, m := f.mi, s := f.s, fraction := 0, nfraction := 1, c := 0, p := 5, off := 0 } := by
+  have hd := daysIn_le f.M f.Y
+  simp only [renderDateTime, List.append_assoc, List.cons_append, List.nil_append]
+  rw [parseLoop_pad4 f.Y v.y _ _ _ (by simp) rfl, sep_dash0 _ _ _ rfl]
+  rw [parseLoop_pad2 f.M ⟨by have := v.m; omega, by have := v.m; omega⟩ _ _ _ (by simp) rfl, sep_dash1 _ _ _ rfl]
+  rw [parseLoop_pad2 f.D ⟨by have := v.d; omega, by have := v.d; omega⟩ _ _ _ (by simp) rfl, sep_T _ _ _ rfl]
+  rw [parseLoop_pad2 f.h ⟨by have := v.h; omega, by have := v.h; omega⟩ _ _ _ (by simp) rfl, sep_colon3 _ _ _ rfl]
+  rw [parseLoop_pad2 f.mi ⟨by have := v.mi; omega, by have := v.mi; omega⟩ _ _ _ (by simp) rfl, sep_colon4 _ _ _ rfl]
+  rw [parseLoop_pad2 f.s ⟨by have := v.s; omega, by have := v.s; omega⟩ _ _ _ (by simp) rfl, sep_Z5 _ rfl]
+
+theorem toInt64_small (x : Int) (h : 0 ≤ x ∧ x ≤ 9999) : toInt64 x = x := by
+  unfold toInt64; split <;> omega
+
+/-- `iso8601.Parse` on the rendered wall clock returns exactly the rendered fields (UTC, no fraction) -/
+theorem parseFields_render (f : Fields) (v : ValidF f) :
+    parseFields (renderDateTime f ++ [90]) = .ok { f with nano := 0, off := 0 } := by
+  have hd := daysIn_le f.M f.Y
+  have hY := toInt64_small f.Y v.y
+  have hD := toInt64_small f.D ⟨by have := v.d; omega, by have := v.d; omega⟩
+  have h1 := v.m; have h2 := v.d; have h3 := v.h; have h4 := v.mi; have h5 := v.s
+  simp only [parseFields, parseLoop_render f v]
+  have c1 : ¬ (f.M < 1 ∨ f.M > 12) := by omega
+  have c2 : ¬ (f.D < 1 ∨ f.D > daysIn f.M f.Y) := by omega
+  have c3 : ¬ (f.h > 23) := by omega
+  have c4 : ¬ (f.mi > 59) := by omega
+  have c5 : ¬ (f.s > 59) := by omega
+  simp [hY, hD, c1, c2, c3, c4, c5, pow10]
+
+/-- **byte-level round trip, every instant with a four-digit year**: what `t.UTC().Format(RFC3339)` prints is parsed
+    back by the ISO 8601 parser to the same instant at the format's precision (whole seconds) -/
+theorem roundtrip_iso (t : Instant) (hy : 0 ≤ t.utcFields.Y ∧ t.utcFields.Y ≤ 9999) :
+    parseIso (formatRFC3339 t) = .ok { t with nano := 0 } := by
+  have v := utcFields_valid t
+  simp only at v
+  have vf : ValidF t.utcFields := ⟨hy, ⟨v.1, v.2.1⟩, ⟨v.2.2.1, v.2.2.2.1⟩, ⟨v.2.2.2.2.1, v.2.2.2.2.2.1⟩,
+    ⟨v.2.2.2.2.2.2.1, v.2.2.2.2.2.2.2.1⟩, ⟨v.2.2.2.2.2.2.2.2.1, v.2.2.2.2.2.2.2.2.2.1⟩⟩
+  have hi := utcFields_instant t
+  simp only [parseIso, formatRFC3339, parseFields_render _ vf, normalise]
+  have hs : daysFromCivil t.utcFields.Y t.utcFields.M t.utcFields.D * 86400 + t.utcFields.h * 3600 + t.utcFields.mi * 60 +
+      t.utcFields.s = t.sec := by
+    have := congrArg Instant.sec hi
+    simp only [Fields.instant] at this
+    have ho := v.2.2.2.2.2.2.2.2.2.2
+    omega
+  simp [Fields.instant, hs]
+
+/-- **C20 round trip, both dialects, byte level**: `UnmarshalJSON(MarshalJSON(t))` is `t` truncated to the second, for
+    every instant whose UTC year has four digits (Go prints other years with a sign or more digits; outside the model) -/
+theorem roundtrip (t : Instant) (hy : 0 ≤ t.utcFields.Y ∧ t.utcFields.Y ≤ 9999) :
+    unmarshal16 (marshalRFC3339 t) = .ok { t with nano := 0 } ∧ unmarshal201 (marshalRFC3339 t) = .ok { t with nano := 0 } :=
+  roundtrip_partial t (roundtrip_iso t hy)
+
+/-- the hypothesis is met by a whole range of instants: 0000-01-01T00:00:00Z … 9999-12-31T23:59:59Z (spot instances) -/
+example : (0 ≤ (⟨1700000000, 5⟩ : Instant).utcFields.Y ∧ (⟨1700000000, 5⟩ : Instant).utcFields.Y ≤ 9999) := by decide
+example : (0 ≤ (⟨-62167219200, 0⟩ : Instant).utcFields.Y ∧ (⟨253402300799, 999999999⟩ : Instant).utcFields.Y ≤ 9999) := by decide
+
 
 def ok? (r : Except PErr Instant) : Option Instant := match r with | .ok t => some t | .error _ => none
 
